@@ -145,7 +145,8 @@ def gen_run(exe, rng, tier):
                 p_proxystate=0.3, p_rq=0.5, p_reply=0.3, max_steps=24, min_steps=8, rwout_p=0.6)
     n = 150 if tier == "quick" else 5000
     return (WH.run_parallel(exe, rng, n, lambda e, r, i: WH.generic_history(e, r, i, emph)) +
-            WH.run_parallel(exe, rng, n, WH.rewrite_history))
+            WH.run_parallel(exe, rng, n, WH.rewrite_history) +
+            WH.run_parallel(exe, rng, 6 if tier == "quick" else 60, WH.acctlog_history))
 
 
 def nontrivial(c):
